@@ -737,6 +737,7 @@ pub fn run_c06(case: &Case) -> Outcome {
     let mut cur_sols: BTreeSet<Vec<i64>> = sols.clone(); // solutions that also satisfy the cuts so far
     let mut clauses: Vec<(u64, Vec<MPred>)> = vec![];
     let mut pending_infs: Vec<(Vec<MPred>, Option<MPred>)> = vec![];
+    let mut pending_ids: Vec<u64> = vec![];
     let mut seen_ids = BTreeSet::new();
     let mut last_nogood_empty = false;
     let mut concluded = false;
@@ -835,6 +836,7 @@ pub fn run_c06(case: &Case) -> Outcome {
                     }
                 }
                 pending_infs.push((prem, conc));
+                pending_ids.push(*id);
             }
             PStep::Nogood { id, lits: ls, hints } => {
                 if !seen_ids.insert(*id) {
@@ -882,10 +884,31 @@ pub fn run_c06(case: &Case) -> Outcome {
                         return out;
                     }
                     out.count("nogood_steps_derived", 1);
+                    // hinted proofs: the steps named in the hints are the ones the nogood may use
+                    if let Some(h) = hints {
+                        let hs: std::collections::BTreeSet<u64> = h.iter().copied().collect();
+                        let cls_h: Vec<Vec<MPred>> = clauses.iter().filter(|c| hs.contains(&c.0)).map(|c| c.1.clone()).collect();
+                        let infs_h: Vec<(Vec<MPred>, Option<MPred>)> =
+                            pending_infs.iter().zip(pending_ids.iter()).filter(|(_, i)| hs.contains(i)).map(|(x, _)| x.clone()).collect();
+                        if !rup(m, &cl, &cls_h, &infs_h) {
+                            out.fail(
+                                "hints-insufficient",
+                                format!(
+                                    "step {id}: the clause {} follows by propagation from the earlier steps, but not from the {} steps named in its hints\n{}",
+                                    cl.iter().map(|l| l.show()).collect::<Vec<_>>().join(" | "),
+                                    h.len(),
+                                    proof_dump()
+                                ),
+                            );
+                            return out;
+                        }
+                        out.count("nogood_steps_derived_from_hints", 1);
+                    }
                 }
                 last_nogood_empty = cl.is_empty();
                 clauses.push((*id, cl));
                 pending_infs.clear();
+                pending_ids.clear();
             }
             PStep::Del(id) => {
                 clauses.retain(|c| c.0 != *id);
